@@ -509,6 +509,10 @@ func (g *tfGen) resource(i int) {
 		txt := "self.item[0]." + []string{"val", "note", "zeta"}[(i+items)%3]
 		if i%2 == 1 {
 			txt = fmt.Sprintf("self.item[0].pair[%d]", items%2)
+			if (items+len(g.decls))%2 == 0 {
+				// the index steps written over several lines (newlines are insignificant between brackets)
+				txt = fmt.Sprintf("self.item[\n    0\n  ].pair[\n    %d\n  ]", items%2)
+			}
 		}
 		g.refs = append(g.refs, TfRef{Addr: txt, Attr: "elem", Declared: true, AdmitsRef: true})
 		fmt.Fprintf(&g.sb, "  elem = %s\n", txt)
